@@ -223,7 +223,7 @@ def make_mutant(seed, idx):
     frames = [f for f in files if re.search(r'(_binary|root_packet|risk_control_re\w+|nested_packet|string_packet|basic_packet)\.go$', f)]
     msgs = [f for f in files if f not in lib]
     for _ in range(200):
-        fam = rng.choice(['field-sym', 'field-sym', 'field-enc', 'field-dec', 'registry', 'token-lib', 'token-lib', 'token-frame', 'token-frame', 'token-msg'])
+        fam = rng.choice(os.environ.get('MUT_FAMILIES', 'field-sym field-sym field-enc field-dec registry token-lib token-lib token-frame token-frame token-msg').split())
         if fam.startswith('field'):
             path = rng.choice(msgs)
             src = open(os.path.join(REPO, path)).read()
